@@ -202,7 +202,7 @@ func verifH_C10_content_params() {
 	verifReach("end")
 }
 
-//verif:harness id=C10 tier=quick,thorough witness=end bounds="deepObject query parameters that pass the real Parameter.Validate: object schema in 6 shapes (string / nested object / array of strings / array of objects property, additionalProperties schema, free-form) x one or two query keys drawn from 10 bracket forms (p[a], p[a][b], p[a][0], p[a][1], p[a][0][b], p[b], p[a][x], p[], p[a][, p) x values from {1, x, empty}; ValidateParameter with MultiError symbolic; assertion = no panic (concrete texts chosen by the explorer)"
+//verif:harness id=C10 tier=quick,thorough witness=end bounds="deepObject query parameters that pass the real Parameter.Validate: object schema in 6 shapes (string / nested object / array of strings / array of objects property, additionalProperties schema, free-form) x one or two query keys drawn from 12 bracket forms (p[a], p[a][b], p[a][0], p[a][1], p[a][0][b], p[b], p[a][x], p[], p[a][, p, p[a][-1], p[a][3]) x values from {1, x, empty}; parameter name p, or (one key) a name with regular-expression or bracket characters: s(v, a[b, p.q; ValidateParameter with MultiError symbolic; assertion = no panic (concrete texts chosen by the explorer)"
 func verifH_C10_deepobject() {
 	str := &openapi3.SchemaRef{Value: &openapi3.Schema{Type: &openapi3.Types{"string"}}}
 	objB := &openapi3.SchemaRef{Value: &openapi3.Schema{Type: &openapi3.Types{"object"}, Properties: openapi3.Schemas{"b": str}}}
@@ -224,21 +224,23 @@ func verifH_C10_deepobject() {
 		obj.Properties = openapi3.Schemas{"a": a}
 	}
 	explode := true
-	param := &openapi3.Parameter{Name: "p", In: "query", Style: "deepObject", Explode: &explode, Schema: &openapi3.SchemaRef{Value: obj}}
+	// parameter names are free text: brackets, parentheses and dots are legal in a name
+	name := []string{"p", "s(v", "a[b", "p.q"}[verifChoose("name", 4)]
+	param := &openapi3.Parameter{Name: name, In: "query", Style: "deepObject", Explode: &explode, Schema: &openapi3.SchemaRef{Value: obj}}
 	if param.Validate(context.Background()) != nil {
 		return
 	}
-	keys := []string{"p[a]", "p[a][b]", "p[a][0]", "p[a][1]", "p[a][0][b]", "p[b]", "p[a][x]", "p[]", "p[a][", "p"}
+	keys := []string{"[a]", "[a][b]", "[a][0]", "[a][1]", "[a][0][b]", "[b]", "[a][x]", "[]", "[a][", "", "[a][-1]", "[a][3]"}
 	vals := []string{"1", "x", ""}
 	q := url.Values{}
 	k1 := verifChoose("k1", len(keys))
-	q[keys[k1]] = []string{vals[verifChoose("v1", 3)]}
-	if verifChoose("second", 2) == 1 {
+	q[name+keys[k1]] = []string{vals[verifChoose("v1", 3)]}
+	if name == "p" && verifChoose("second", 2) == 1 {
 		k2 := verifChoose("k2", len(keys))
 		if k2 != k1 {
-			q[keys[k2]] = []string{vals[verifChoose("v2", 3)]}
+			q[name+keys[k2]] = []string{vals[verifChoose("v2", 3)]}
 		} else {
-			q[keys[k1]] = append(q[keys[k1]], vals[verifChoose("v2", 3)])
+			q[name+keys[k1]] = append(q[name+keys[k1]], vals[verifChoose("v2", 3)])
 		}
 	}
 	input := &RequestValidationInput{Request: &http.Request{Method: "GET", Header: http.Header{}, URL: &url.URL{Path: "/"}}, QueryParams: q, PathParams: map[string]string{},
